@@ -42,7 +42,7 @@ func keep(d *m.Design) bool { return len(d.Schemes) > 0 }
 func TestSecurity(t *testing.T) {
 	n := rt.EnvInt("VERIF_CHECKS", 24)
 	seed := rt.EnvInt("VERIF_SEED", 1)
-	sess, built := rt.Prepare(t, "c06", rt.Options{Profile: gen.Security(), N: n, Seed: seed, Keep: keep})
+	sess, built := rt.Prepare(t, "c06", rt.Options{Profile: gen.Security(), N: n, Seed: seed, Keep: keep, Extra: []*m.Design{gen.SecurityMatrix()}})
 	defer sess.Close()
 	defer rt.CloseAll(built)
 	if len(built) == 0 {
